@@ -242,6 +242,34 @@ func (g *gen) generate(n int) {
 				g.emit(Case{Op: u.name, TC: tc, A: []V{a}, Order: g.order(ta)}, "unary")
 			}
 		}
+		// IEEE special operands (+-0, +-Inf, NaN) for every unary method on every float receiver, rotating with the repetition
+		for ui, u := range unaryOps {
+			for tc := 0; tc < 4; tc++ {
+				sp := specials[(rep+ui+tc)%len(specials)]
+				ta := []int{tc, 0, 1, 9, 10}[r.Intn(5)]
+				if isConcrete(u.name) {
+					ta = tc
+				}
+				g.emit(Case{Op: u.name, TC: tc, A: []V{VFl(ta, sp)}, Order: g.order(ta)}, "unary-special")
+			}
+		}
+		// Log1pExp: both sides of every branch threshold, at distances from 1 ulp to 9 (a moved threshold only
+		// becomes visible a few units away from it, where the two neighbouring formulas differ in binary64)
+		for tc := 0; tc < NRECV; tc++ {
+			for bi, b := range []float64{-37, 18, 33.3} {
+				for _, sg := range []float64{-1, 1} {
+					far := []float64{3, 9, 6, 1.5}[(rep+bi)%4]
+					near := []float64{1e-9, 1e-3, 0.4}[(rep+tc)%3]
+					for _, d := range []float64{far, near} {
+						ta := []int{tc, 0, 2, 9}[r.Intn(4)]
+						if !isF(ta) {
+							ta = 0
+						}
+						g.emit(Case{Op: "Log1pExp", TC: tc, A: []V{VFl(ta, b+sg*d)}, Order: g.order(ta)}, "log1pexp-strata")
+					}
+				}
+			}
+		}
 		// concrete ABS needs the receiver's previous value
 		for tc := 0; tc < NRECV; tc++ {
 			cold := genV(r, tc, "small")
@@ -308,6 +336,19 @@ func (g *gen) generate(n int) {
 					c.A = []V{genV(r, ta, "l1pe")}
 				}
 				g.emit(c, "composite")
+			}
+		}
+		// log-scale programs at the infinities: (-Inf,-Inf), (-Inf,x), (x,-Inf), (+Inf,+Inf), (x,+Inf)
+		for _, op := range []string{"LogAdd", "LogSub", "LOGADD", "LOGSUB"} {
+			for tc := 0; tc < 4; tc++ {
+				ninf, pinf, x := math.Inf(-1), math.Inf(1), genF(r, "small")
+				pairs := [][2]float64{{ninf, ninf}, {ninf, x}, {x, ninf}, {pinf, pinf}, {x, pinf}}
+				pr := pairs[(rep+tc)%len(pairs)]
+				ta, tb := tc, []int{tc, 0, 1, 2, 3}[r.Intn(5)]
+				if isConcrete(op) {
+					tb = tc
+				}
+				g.emit(Case{Op: op, TC: tc, TT: []int{tc}, A: []V{VFl(ta, pr[0]), VFl(tb, pr[1])}, Order: g.order(ta, tb)}, "composite-special")
 			}
 		}
 		// special functions with a parameter
@@ -620,7 +661,7 @@ func main() {
 		}
 	}
 	g.generate(o.N)
-	capGoals := 160
+	capGoals := 220
 	if o.Tier == "thorough" {
 		capGoals = 1600
 	}
